@@ -1219,6 +1219,81 @@ func checkC19(w *World, r *Report) {
 					}
 				}
 			}
+			// ... and a nil select function is never called: every path to the call of the select function passes the
+			// non-nil edge of the test or the store of a default
+			{
+				_, nonNil := g.CondEdges(func(v ssa.Value) (bool, bool) {
+					b, isB := v.(*ssa.BinOp)
+					if !isB || (b.Op != token.EQL && b.Op != token.NEQ) {
+						return false, false
+					}
+					if k, isK := b.Y.(*ssa.Const); isK && k.IsNil() {
+						if strings.HasSuffix(w.pathOf(b.X), ".selectMember") || strings.Contains(w.pathOf(b.X), "selectMember") {
+							return b.Op == token.EQL, true
+						}
+					}
+					return false, false
+				})
+				defStore := make([]bool, len(g.ins))
+				for i, in := range g.ins {
+					if st, isSt := in.(*ssa.Store); isSt {
+						if vp := w.pathOf(st.Val); strings.HasPrefix(vp, "F:") || strings.HasPrefix(vp, "closure:") {
+							defStore[i] = true // a function constant is stored: the default
+						}
+					}
+				}
+				okCall := true
+				for i, in := range g.ins {
+					c, isC := in.(*ssa.Call)
+					if !isC || c.Call.IsInvoke() || c.Call.StaticCallee() != nil {
+						continue
+					}
+					if _, isB := c.Call.Value.(*ssa.Builtin); isB {
+						continue
+					}
+					vp := w.pathOf(c.Call.Value)
+					if !strings.Contains(vp, "selectMember") && !strings.Contains(vp, "SelectRandomMember") {
+						continue
+					}
+					if strings.HasPrefix(vp, "F:") {
+						continue // the default itself
+					}
+					if ph, isPhi := c.Call.Value.(*ssa.Phi); isPhi {
+						// a local that merges the caller's function (on the non-nil edge) with the default
+						good := true
+						for j, e := range ph.Edges {
+							if strings.HasPrefix(w.pathOf(e), "F:") {
+								continue
+							}
+							pred := ph.Block().Preds[j]
+							last := g.first[pred] + len(pred.Instrs) - 1
+							via := Edge{last, g.first[ph.Block()]}
+							onEdge := false
+							for _, ne := range nonNil {
+								if ne == via {
+									onEdge = true
+								}
+							}
+							if !onEdge && !g.OnlyVia(nonNil, last) {
+								good = false
+							}
+						}
+						if good {
+							continue
+						}
+					}
+					// reachable without a default having been stored and without the non-nil edge?
+					cut := map[Edge]bool{}
+					for _, e := range nonNil {
+						cut[e] = true
+					}
+					if g.reach(g.entry(), defStore, cut)[i] {
+						okCall = false
+					}
+				}
+				r.Check(okCall, "C19.R1", fname(a.activate)+":select-never-nil", "the select function that is called is the caller's or, when none was given, the default", site,
+					"the select function can be nil when it is called (Activate with a zero ActivationConfig): the agent panics, Activate times out, and the restarted agent has lost its view and its activation table")
+			}
 			r.Check(okDef, "C19.R1", fname(a.activate)+":select-default-only-if-nil", "the caller's select function is replaced by the default only when none was given", site,
 				"the configured select function is overwritten: the actor is placed on a member the caller did not choose")
 			for _, c := range []struct{ m, f string }{{"WithSelectMemberFunc", "selectMember"}, {"WithID", "id"}, {"WithRegion", "region"}} {
@@ -1814,7 +1889,7 @@ func checkC20(w *World, r *Report) {
 	r.Rule("C20.R1", "results of functions that may return nil are checked before they are dereferenced (provider and agent code)", 1)
 	r.Rule("C20.R2", "Handshake: the peer is added before the reply is built, the reply carries the full member list and goes to the sender; Members: every listed member is added", 3)
 	r.Rule("C20.R3", "add/remove helpers always report the new list to the agent; only a contained member is removed, and it is the one found for the reported address", 5)
-	r.Rule("C20.R4", "the event child turns RemoteUnreachableEvent{ListenAddr} into memberLeave{ListenAddr} for the provider itself", 1)
+	r.Rule("C20.R4", "the event child turns RemoteUnreachableEvent{ListenAddr} into memberLeave{ListenAddr} for the provider itself, whose PID is recorded before the child exists", 2)
 	r.Rule("C20.R5", "the provider's Receive has a case for each protocol message that reaches its handler", 4)
 	smT := w.Named("cluster", "SelfManaged")
 	recv := w.Method("cluster", "SelfManaged", "Receive")
@@ -1912,6 +1987,10 @@ func checkC20(w *World, r *Report) {
 		}
 	}
 	site := w.fnPos(recv)
+	// R6: the lists the provider sends are fresh copies keyed by member ID (C18.R4): a report that is still unread must not
+	// change when the set changes
+	r.Rule("C20.R6", "MemberSet is keyed by Member.ID and Slice returns a fresh slice with every member (C18.R4)", 6)
+	importRules(w, r, checkC18, "C18", "C20.R6", func(o *Obligation) bool { return o.Rule == "C18.R4" })
 	// R2, R3, R5: membership protocol of the provider (rules_cluster2.go)
 	checkC20Membership(w, r, recv, smT, addM)
 	{
@@ -2046,6 +2125,35 @@ func checkC20(w *World, r *Report) {
 					}
 				}
 			}
+		}
+		// the child forwards to s.pid: it must be set before the child exists (flattened Started case)
+		{
+			fg := w.FGFlat(recv)
+			oldCur := w.cur
+			w.cur = fg
+			w.curLock++
+			st := w.caseEdges(fg, "actor.Started")
+			pidSet := make([]bool, len(fg.ins))
+			spawned := -1
+			for i, in := range fg.ins {
+				if s2, isSt := in.(*ssa.Store); isSt {
+					if fa, isFA := s2.Addr.(*ssa.FieldAddr); isFA {
+						if isFieldOf(fa, smT, "pid") && strings.HasPrefix(w.pathOf(s2.Val), "call:(*actor.Context).PID(") {
+							pidSet[i] = true
+						}
+						if isFieldOf(fa, smT, "eventSubPID") {
+							if c, isC := s2.Val.(*ssa.Call); isC {
+								spawned = fg.idx[c]
+							}
+						}
+					}
+				}
+			}
+			okPid := len(st) > 0 && anyOf(pidSet) && spawned >= 0 && fg.Before(pidSet, spawned)
+			w.curLock--
+			w.cur = oldCur
+			r.Check(okPid, "C20.R4", "SelfManaged:pid-before-event-child", "the provider records its own PID before it spawns the child that forwards unreachable reports to that PID", site,
+				"the event child can forward a memberLeave to a nil PID while the provider is still starting: that report is lost, the unreachable member stays")
 		}
 		r.Check(okSub, "C20.R4", "SelfManaged:event-child-subscribed", "the event child is subscribed to the event stream", site, "the provider never hears about unreachable peers")
 	}
